@@ -368,4 +368,126 @@ theorem all_eq {N k : Nat} {ws : Words k} {f : Spec.Bits} (hN : 0 < N) (h : Rep 
       rw [h.word q hq j hj]
       simp [ones, hj, this, hf _ this]
 
+/-! ## construction from strings -/
+
+/-- one iteration of the string-constructor loop: bit `i` becomes `c != zero` for a valid character -/
+theorem fromString_step {N k : Nat} {ws : Words k} {g : Spec.Bits} (h : Rep N k ws g) (i : Nat) (hi : i < N)
+    (c zeroCh oneCh : Nat) (hc : c = zeroCh ∨ c = oneCh) :
+    ∃ ws2, fromStringBody N ws i c zeroCh oneCh = .ok ws2 ∧
+      Rep N k ws2 (Spec.set1 g i (c != zeroCh)) := by
+  unfold fromStringBody
+  by_cases h1 : c = oneCh
+  · obtain ⟨ws1, hs1, hr1⟩ := set_rep h i hi true
+    by_cases h0 : c = zeroCh
+    · obtain ⟨ws2, hs2, hr2⟩ := set_rep hr1 i hi false
+      refine ⟨ws2, by simp [← h1, ← h0, hs1, hs2], hr2.congr (fun j _ => ?_)⟩
+      by_cases e : j = i <;> simp [Spec.set1, e, h0]
+    · refine ⟨ws1, by simp [← h1, h0, hs1], hr1.congr (fun j _ => ?_)⟩
+      by_cases e : j = i <;> simp [Spec.set1, e, h0]
+  · have h0 : c = zeroCh := by cases hc with | inl h => exact h | inr h => exact absurd h h1
+    obtain ⟨ws2, hs2, hr2⟩ := set_rep h i hi false
+    have h1' : ¬ zeroCh = oneCh := by rw [← h0]; exact h1
+    refine ⟨ws2, by simp [h0, h1', hs2], hr2.congr (fun j _ => ?_)⟩
+    by_cases e : j = i <;> simp [Spec.set1, e, h0]
+
+theorem fromStringLoop_rep {N k : Nat} (str : List Nat) (pos len zeroCh oneCh : Nat) (hlenN : len ≤ N)
+    (hL : pos + len ≤ str.length)
+    (hvalid : ∀ t (ht : pos + t < str.length), t < len → str[pos + t] = zeroCh ∨ str[pos + t] = oneCh) :
+    ∀ (fuel i : Nat) (ws : Words k) (g : Spec.Bits), Rep N k ws g → i + fuel = len →
+    ∃ ws', fromStringLoop N str pos len zeroCh oneCh fuel i ws = .ok ws' ∧
+      Rep N k ws' (fun j => if i ≤ j ∧ j < len then
+        (match str[pos + (len - 1 - j)]? with | some c => c != zeroCh | Option.none => false) else g j)
+  | 0, i, ws, g, h, _ => ⟨ws, rfl, h.congr (fun j _ => by
+      have : ¬ (i ≤ j ∧ j < len) := by omega
+      simp [this])⟩
+  | fuel + 1, i, ws, g, h, hsum => by
+    have hil : i < len := by omega
+    have hidx : pos + len - 1 - i = pos + (len - 1 - i) := by omega
+    have hlt : pos + (len - 1 - i) < str.length := by omega
+    have hc := hvalid (len - 1 - i) hlt (by omega)
+    obtain ⟨ws2, hs2, hr2⟩ := fromString_step h i (by omega) str[pos + (len - 1 - i)] zeroCh oneCh hc
+    obtain ⟨ws', hs', hr'⟩ := fromStringLoop_rep str pos len zeroCh oneCh hlenN hL hvalid fuel (i + 1) ws2 _ hr2
+      (by omega)
+    refine ⟨ws', ?_, hr'.congr (fun j _ => ?_)⟩
+    · simp only [fromStringLoop, hidx, rd_ok hlt, ok_bind, hs2, hs']
+    · by_cases hji : j = i
+      · subst hji
+        have : ¬ (j + 1 ≤ j ∧ j < len) := by omega
+        simp [Spec.set1, hil, hlt]
+      · have e1 : (i + 1 ≤ j ∧ j < len) = (i ≤ j ∧ j < len) := by apply propext; omega
+        simp only [e1, Spec.set1, hji, if_false]
+
+/-- the characters a string constructor uses: the first `N` of `str[pos, pos + n)` -/
+def usedChars (N : Nat) (str : List Nat) (pos n : Nat) : List Nat := ((str.drop pos).take n).take N
+
+theorem usedChars_length (N : Nat) (str : List Nat) (pos n : Nat) :
+    (usedChars N str pos n).length = min (min n (str.length - pos)) N := by
+  simp [usedChars]; omega
+
+theorem usedChars_getElem? (N : Nat) (str : List Nat) (pos n t : Nat) (ht : t < min (min n (str.length - pos)) N) :
+    (usedChars N str pos n)[t]? = str[pos + t]? := by
+  have h1 : t < N := by omega
+  have h2 : t < n := by omega
+  simp [usedChars, List.getElem?_drop, h1, h2]
+
+/-- `bitset(string_view str, pos, n, zero, one)`; preconditions: `pos <= str.size()` (std throws
+    `out_of_range`) and every used character is `zero` or `one` (std throws `invalid_argument`) -/
+theorem fromString_rep (N k : Nat) (str : List Nat) (pos n zeroCh oneCh : Nat) (hpos : pos ≤ str.length)
+    (hvalid : (usedChars N str pos n).all (fun c => c == zeroCh || c == oneCh) = true) :
+    ∃ ws', fromString N k str pos n zeroCh oneCh = .ok ws' ∧ Rep N k ws' (Spec.ofString N str pos n zeroCh) := by
+  obtain ⟨ws0, hs0, hr0⟩ := fromUll_rep N k 0 (by decide)
+  have hnp : ¬ pos > str.length := by omega
+  let len := min (min n (str.length - pos)) N
+  have hlen : len = min (min n (str.length - pos)) N := rfl
+  have hv : ∀ t (ht : pos + t < str.length), t < len → str[pos + t] = zeroCh ∨ str[pos + t] = oneCh := by
+    intro t ht htl
+    rw [all_iff_getElem] at hvalid
+    have hlt : t < (usedChars N str pos n).length := by rw [usedChars_length]; exact htl
+    have := hvalid t hlt
+    have e : (usedChars N str pos n)[t] = str[pos + t] := by
+      have h1 := usedChars_getElem? N str pos n t htl
+      rw [List.getElem?_eq_getElem hlt, List.getElem?_eq_getElem ht] at h1
+      exact Option.some.inj h1
+    rw [e] at this
+    simpa using this
+  obtain ⟨ws', hs', hr'⟩ := fromStringLoop_rep (N := N) (k := k) str pos len zeroCh oneCh (by omega) (by omega) hv
+    len 0 ws0 _ hr0 (by omega)
+  refine ⟨ws', by simp only [fromString, hnp, if_false, hs0, ok_bind]; exact hs', hr'.congr (fun j _ => ?_)⟩
+  simp only [Spec.ofString, Nat.zero_le, true_and]
+  have hul := usedChars_length N str pos n
+  by_cases hj : j < len
+  · have h1 : j < (usedChars N str pos n).length := by rw [hul]; exact hj
+    have h2 : (usedChars N str pos n).length - 1 - j < min (min n (str.length - pos)) N := by omega
+    have : (((str.drop pos).take n).take N).reverse[j]? = str[pos + (len - 1 - j)]? := by
+      show (usedChars N str pos n).reverse[j]? = _
+      rw [List.getElem?_reverse h1, usedChars_getElem? N str pos n _ h2, hul]
+    simp only [hj, if_true, this]
+    cases str[pos + (len - 1 - j)]? <;> rfl
+  · have : (((str.drop pos).take n).take N).reverse[j]? = Option.none := by
+      show (usedChars N str pos n).reverse[j]? = _
+      apply List.getElem?_eq_none
+      rw [List.length_reverse, hul]; omega
+    simp [hj, this, Spec.ofNat]
+
+/-- `bitset(char const* str, n, zero, one)`; preconditions: `[str, str + n)` readable (or `n == npos`)
+    and every used character is `zero` or `one` -/
+theorem fromCstr_rep (N k : Nat) (buf : List Nat) (n zeroCh oneCh : Nat) (hn : n = NPOS ∨ n ≤ buf.length)
+    (hvalid : (usedChars N buf 0 n).all (fun c => c == zeroCh || c == oneCh) = true) :
+    ∃ ws', fromCstr N k buf n zeroCh oneCh = .ok ws' ∧ Rep N k ws' (Spec.ofString N buf 0 n zeroCh) := by
+  unfold fromCstr
+  by_cases h1 : n = NPOS
+  · simp only [h1, beq_self_eq_true, if_true]
+    rw [h1] at hvalid
+    exact fromString_rep N k buf 0 NPOS zeroCh oneCh (Nat.zero_le _) hvalid
+  · have hle : n ≤ buf.length := by cases hn with | inl h => exact absurd h h1 | inr h => exact h
+    have hb : (n == NPOS) = false := by simpa using h1
+    simp only [hb, Bool.false_eq_true, if_false, hle, if_true]
+    have e : usedChars N (buf.take n) 0 n = usedChars N buf 0 n := by
+      simp [usedChars, List.take_take]
+    obtain ⟨ws', hs, hr⟩ := fromString_rep N k (buf.take n) 0 n zeroCh oneCh (Nat.zero_le _) (by rw [e]; exact hvalid)
+    refine ⟨ws', hs, hr.congr (fun j _ => ?_)⟩
+    have e' : (((buf.take n).drop 0).take n).take N = ((buf.drop 0).take n).take N := by
+      simp [List.take_take]
+    simp only [Spec.ofString, e']
+
 end Tetl.C17.Props
